@@ -45,6 +45,10 @@ def main():
         # three fixed layouts: mixed groups, a default-yielding (all-missing) group, one big group
         def col(vals):
             return vals
+        narrow = None
+        if kind in ("int32", "uint8", "int16", "uint64", "float32", "datetime_s", "datetime_ms", "datetime_ns"):
+            narrow = kind
+            kind = {"float32": "floatna"}.get(kind, "datetime" if kind.startswith("datetime_") else "int")
         if kind == "bool":
             a = [True, False, True, True, False, False, True, False, True]
             b = a
@@ -90,24 +94,56 @@ def main():
         else:
             import datetime as _dt2
             big_v = [(_dt2.date(2021, 3, 1) + _dt2.timedelta(days=v)) if k == "date" else _dt2.datetime(2021, 3, 1, 8, 0, v) for v in big_i]
+        # layout 6: large offset relative to the spread (cancellation-prone one-pass formulas), numeric kinds only
+        off_g = [1, 1, 1, 2, 2, 2, 2, 3, 3]
+        off_i = [0, 1, 2, 10, 20, 30, 40, 7, 7]
+        if k == "int":
+            off_v = [1700000000 + v for v in off_i]
+        elif k == "float":
+            off_v = [1.7e9 + v + 0.5 for v in off_i]
+        else:
+            off_v = None
         g1 = [2, 1, 1, 3, 3, 3, 1, 2, 2]
         g2 = [1, 1, 2, 2, 2, 3, 3, 3, 3]
         g3 = [5] * 9
-        return [[("g", "int", g1), ("x", k, a)], [("g", "int", g2), ("x", k, b)], [("g", "int", g3), ("x", k, a)], [("g", "int", ties_g), ("x", k, ties_v)], [("g", "int", big_g), ("x", k, big_v)]]
+        if narrow:
+            # the same layouts in a narrower / differently-united dtype of the same family
+            if narrow.startswith("datetime_"):
+                a = [None if d is None else d.replace(microsecond=0) for d in a]
+                b = [None if d is None else d.replace(microsecond=0) for d in b]
+            elif narrow != "float32":
+                a = [abs(v) for v in a]; b = [abs(v) for v in b]
+            return [[("g", "int", g1), ("x", narrow, a)], [("g", "int", g2), ("x", narrow, b)], [("g", "int", g3), ("x", narrow, a)]]
+        return [[("g", "int", g1), ("x", k, a)], [("g", "int", g2), ("x", k, b)], [("g", "int", g3), ("x", k, a)], [("g", "int", ties_g), ("x", k, ties_v)], [("g", "int", big_g), ("x", k, big_v)]] + ([[("g", "int", off_g), ("x", k, off_v)]] if off_v else [])
 
     def run(helper, kw, spec, numba_on):
         di.USE_NUMBA = numba_on
         df = gen.build_frame(spec)
-        f = getattr(di, helper)
+        f = getattr(di, helper) if helper != "multi" else None
         kws = dict(kw)
         args = []
         if helper == "nth": args.append(kws.pop("index"))
         if helper == "quantile": args.append(kws.pop("q"))
         before = dict(selected)
         try:
-            res = df.group_by("g").aggregate(y=f("x", *args, **kws))
-            y = dict.__getitem__(res, "y")
-            val = {"dtype": str(np.asarray(y).dtype), "kind": canon.dtype_kind(y), "cells": canon.col_cells(y)}
+            if helper == "multi":
+                # several helpers on the same column in ONE aggregate() call: a kernel must not disturb what the next one sees
+                fs = {}
+                for j, (h, hkw) in enumerate(kw["helpers"]):
+                    hk = dict(hkw); ha = []
+                    if h == "nth": ha.append(hk.pop("index"))
+                    if h == "quantile": ha.append(hk.pop("q"))
+                    fs[f"y{j}"] = getattr(di, h)("x", *ha, **hk)
+                res = df.group_by("g").aggregate(**fs)
+                cells, kinds, dts = [], [], []
+                for name in fs:
+                    y = dict.__getitem__(res, name)
+                    cells += canon.col_cells(y); kinds.append(canon.dtype_kind(y)); dts.append(str(np.asarray(y).dtype))
+                val = {"dtype": ",".join(dts), "kind": ",".join(kinds), "cells": cells}
+            else:
+                res = df.group_by("g").aggregate(y=f("x", *args, **kws))
+                y = dict.__getitem__(res, "y")
+                val = {"dtype": str(np.asarray(y).dtype), "kind": canon.dtype_kind(y), "cells": canon.col_cells(y)}
         except Exception as e:
             val = {"error": type(e).__name__ + ": " + str(e)[:200]}
         val["sel_on"] = selected["on"] - before["on"]
@@ -141,7 +177,7 @@ def main():
                 diff = "na-positions"
             elif not canon.cells_eq(on["cells"], off["cells"], widen=True, tol=tol):
                 diff = "values"
-            elif on["kind"] != off["kind"]:
+            elif on["dtype"] != off["dtype"]:
                 diff = "result-type"
         if diff:
             out["disagreements"].append({"tag": tag, "helper": helper, "kw": kw, "kind": kind, "diff": diff,
